@@ -746,6 +746,19 @@ def search(ctx, case):
     return None
 
 
+def search_global(ctx):
+    """a proof obligation of Props/C19/Args.lean no longer checks (e.g. a family now applies a method outside the reviewed
+    read-only list to its graph): look for a failing input among the snapshot cases and the scenarios"""
+    for c in snapshot_cases() + [mk_case("args_scenario", cls, prog) for cls, prog in scenarios()]:
+        try:
+            r = c.oracle()
+        except Exception:   # noqa
+            r = None
+        if r is not None:
+            return r
+    return None
+
+
 def cases(ctx):
     tier, seed = ctx["tier"], ctx["seed"]
     out = [mk_case("args_scenario", cls, prog) for cls, prog in scenarios()]
